@@ -378,3 +378,43 @@ scn(name="cat:ttm.n1", func="_extras.cat", props=("C18",), must_raise=True, min_
 scn(name="cat:d3.dim1.n1", func="_extras.cat", props=("C09",),
     args=lambda it: (None, [VTuple((make_tt(it, "t0", False, 3),)), VInt(ONE)], {}),
     check=closed_check(_cat_expected(3, 1, ["t0"]), "cat of a single tensor"))
+
+
+# --------------------------------------------------------------------------- grad / watch / unwatch: exactly the requested cores, after backward() (C15)
+
+def _chk_grad(d, want):
+    def check(out):
+        v = out.value
+        if not isinstance(v, (VList, VTuple)):
+            return [("result", False, f"grad() returns a {type(v).__name__} where a list of core gradients is specified")]
+        got = [x.tag if isinstance(x, VOpaque) else f"<{type(x).__name__}>" for x in v.items]
+        ok = len(got) == len(want) and all(g.startswith("grad:") and f"t@{k}" in g for g, k in zip(got, want))
+        back = ("call", "val.backward") in getattr(out, "trace", [])
+        return [("result", ok, "the gradients of exactly the requested cores, in order" if ok else
+                 f"grad() must return c.grad of the cores {list(want)} of the given tensor, in that order; got {got}"),
+                ("backward", back, "val.backward() runs before the gradients are read" if back else "grad() does not call val.backward(): the .grad fields are stale or None")]
+    return check
+
+
+for _d, _idx in ((3, None), (3, [1]), (3, [2, 0]), (1, None), (2, [1, 1])):
+    scn(name=f"grad:d{_d},cores={_idx}", func="grad.grad", props=("C15",),
+        args=(lambda d, ix: (lambda it: (None, [VOpaque("val"), make_tt(it, "t", False, d)] + ([VList([VInt(P.const(i)) for i in ix])] if ix is not None else []), {})))(_d, _idx),
+        check=_chk_grad(_d, list(range(_d)) if _idx is None else _idx))
+
+
+def _chk_watch(want, flag):
+    def check(out):
+        ev = [(w, f) for k, w, f in [t for t in getattr(out, "trace", []) if t[0] == "requires_grad_"]]
+        got = sorted(w for w, f in ev if f is flag)
+        wrong = [w for w, f in ev if f is not flag]
+        ok = got == sorted(f"t@{k}" for k in want) and not wrong
+        return [("watched", ok, f"requires_grad_({flag}) on exactly the requested cores of the operand" if ok else
+                 f"requires_grad_({flag}) must be switched on the cores {sorted(want)} of the operand itself; switched: {ev}")]
+    return check
+
+
+for _d, _idx in ((3, None), (3, [1]), (3, [0, 2])):
+    scn(name=f"watch:d{_d},cores={_idx}", func="grad.watch", props=("C15",),
+        args=(lambda d, ix: (lambda it: (None, [make_tt(it, "t", False, d)] + ([VList([VInt(P.const(i)) for i in ix])] if ix is not None else []), {})))(_d, _idx),
+        check=_chk_watch(list(range(_d)) if _idx is None else _idx, True))
+scn(name="unwatch:d3", func="grad.unwatch", props=("C15",), args=lambda it: (None, [make_tt(it, "t", False, 3)], {}), check=_chk_watch([0, 1, 2], False))
